@@ -1144,7 +1144,17 @@ impl Gen {
         let up = self.rng.chance(1, 2);
         let drift = width_ppm * self.rng.u128_range(1, 9) / 10;
         self.move_price(h, r, v, up, drift);
-        self.close(h, r, t, v, 0);
+        // half of these closes carry a slippage limit at the quote (+-1): a close that trips the band is still a
+        // whole-position close when the partial ratio is 100%, and then the caller's limit must apply unchanged (C17)
+        let mut limit = 0u128;
+        if self.rng.chance(1, 2) {
+            if let Some(p) = h.last.pos(v, t) {
+                let qte = h.w.output_amount(v, p.long_dir, p.size.unsigned_abs()).unwrap_or(0);
+                let delta: i128 = *self.rng.pick(&[-1, 0, 1]);
+                limit = (qte as i128 + delta).max(0) as u128;
+            }
+        }
+        self.close(h, r, t, v, limit);
     }
 
     pub fn macro_same_block(&mut self, h: &mut History, r: &mut Report) {
